@@ -131,6 +131,14 @@ def run(ctx):
     cfgs = [fsops.Config(root_type=t, root_form=f, names=n, outside_ops=False) for (t, f) in FORMS for n in NAMES]
     fsops.graph_search(ctx, cfgs, fsops.small_trees(2), CHECKS, burst_len=1 if q else 2, depth=1,
                        respect_pacing=True, cap=60000 if q else 600000, label="inotify-paths", classify=None)
+    extra = [fsops.Config(names="prefix", outside_ops=False), fsops.Config(names="prefix", root_type="bytes", outside_ops=False)]
+    fsops.graph_search(ctx, extra, fsops.small_trees(2), CHECKS, burst_len=1, depth=2, respect_pacing=True,
+                       cap=30000 if q else 300000, label="inotify-paths-prefix-names", classify=None)
+    twins = [fsops.Config(root_type="str", second_type="bytes", outside_ops=False),
+             fsops.Config(root_type="bytes", second_type="str", outside_ops=False),
+             fsops.Config(root_type="path", second_type="bytes", outside_ops=False)]
+    fsops.graph_search(ctx, twins, fsops.small_trees(1 if q else 2), CHECKS, burst_len=1, depth=1, respect_pacing=True,
+                       cap=20000 if q else 200000, label="inotify-paths-twin-watches", classify=None)
     polling_part(ctx, ctx.tier)
 
 
